@@ -45,7 +45,8 @@ func vhBuildChain(nsteps, nl int) *vhChain {
 	c := &vhChain{md: map[string]map[string]Metadata{}}
 	for s := 0; s < nsteps; s++ {
 		name := vhStepNames[s]
-		c.layout.Steps = append(c.layout.Steps, Step{Type: "step", SupplyChainItem: SupplyChainItem{Name: name}})
+		// the threshold is arbitrary: however many links the step asks for, all counted links must agree
+		c.layout.Steps = append(c.layout.Steps, Step{Type: "step", Threshold: vInt("threshold", -1, 4), SupplyChainItem: SupplyChainItem{Name: name}})
 		per := map[string]Metadata{}
 		var ls []Link
 		var es []Metadata
